@@ -4,6 +4,7 @@ The case is {doc, text, text2, feats, feats2, source, raw}: `doc` is the logical
 model), `text`/`text2` two independently drawn renderings of it.  The strategy does the rendering so
 that Hypothesis shrinks document and layout together; the body only parses and compares.
 """
+import io
 import os
 import re
 
@@ -53,7 +54,7 @@ def strs(maxlen, in_array):
 def column(draw, name, enums):
     kinds = ['short', 'int', 'long', 'float', 'double', 'char', 'char', 'charv'] + (['enum'] if enums else [])
     k = draw(st.sampled_from(kinds))
-    col = dict(name=name, kind=k, arr=draw(st.sampled_from([0, 0, 0, 1, 2, 3])))
+    col = dict(name=name, kind=k, arr=draw(st.sampled_from([0, 0, 0, 1, 2, 3, 0, 10, 12])))
     if k == 'char':
         col['width'] = draw(st.integers(1, 10))
     if k == 'enum':
@@ -124,7 +125,7 @@ def document(draw):
         if cand.upper() not in {t['name'].upper() for t in tables} | {e.upper() for e in enums}:
             tables[0]['name'] = cand
     taken = {t['name'].upper() for t in tables}
-    keys = draw(st.lists(Y.ident.filter(lambda k: k.upper() not in taken), max_size=3, unique_by=lambda k: k.upper()))
+    keys = draw(st.lists(Y.keyword.filter(lambda k: k.upper() not in taken), max_size=3, unique_by=lambda k: k.upper()))
     pval = st.one_of(
         st.text(alphabet='abXY09 \t;{}\',.:=-_/+*()[]<>|@!?~^&%$"', max_size=12).map(lambda s: s.strip()).filter(
             lambda s: not Y.DOUBLE_BRACE.search(s) and not s.endswith('\\') and s.count('"') % 2 == 0),
@@ -323,7 +324,11 @@ def rendering(draw, doc):
     nl = draw(st.sampled_from(['\n', '\n', '\r\n']))
     if nl == '\r\n':
         r.feats.add('crlf')
-    text = nl.join(x.replace('\n', nl) for x in final) + nl
+    text = nl.join(x.replace('\n', nl) for x in final)
+    if final and not final[-1].rstrip(' \t').endswith('\\') and r.flip(6):
+        r.feats.add('no-final-newline')        # the last line of the file is not terminated
+    else:
+        text += nl
     return text, sorted(r.feats)
 
 
@@ -333,7 +338,7 @@ def case_strategy(draw):
     text, feats = draw(rendering(doc))
     text2, feats2 = draw(rendering(doc))
     return dict(doc=doc, text=text, feats=feats, text2=text2, feats2=feats2,
-                source=draw(st.sampled_from(['path', 'text-fileobj', 'binary-fileobj', 'binary-update-fileobj'])), raw=draw(st.booleans()))
+                source=draw(st.sampled_from(['path', 'text-fileobj', 'binary-fileobj', 'binary-update-fileobj', 'stringio', 'bytesio'])), raw=draw(st.booleans()))
 
 
 # ------------------------------------------------------------------ oracle
@@ -344,6 +349,10 @@ def read(text, source, raw, d, name='f.par'):
         f.write(text)
     if source == 'path':
         return call(yanny, fn, raw=raw)
+    if source == 'stringio':        # in-memory text / binary file objects
+        return call(yanny, io.StringIO(text, newline=''), raw=raw)
+    if source == 'bytesio':
+        return call(yanny, io.BytesIO(text.encode('ascii')), raw=raw)
     mode = {'text-fileobj': 'r', 'binary-fileobj': 'rb', 'binary-update-fileobj': 'r+b'}[source]
     with open(fn, mode) as f:
         return call(yanny, f, raw=raw)
